@@ -19,6 +19,8 @@ type C06Op struct {
 	Dir int    `json:"dir"` // which project directory
 	// ArgForm: 0 absolute path, 1 relative to the working directory, 2 "./"-prefixed, 3 trailing slash
 	ArgForm int `json:"arg_form,omitempty"`
+	// SameApp: reuse the RemoveUnusedImportApp value created for this directory earlier in the process
+	SameApp bool `json:"same_app,omitempty"`
 }
 
 type C06Proc struct {
@@ -74,9 +76,10 @@ func (C06) Generate(t *tape.Tape, tier string) interface{} {
 		if t.Bool(1, 3) {
 			form = t.Int(1, 3)
 		}
-		first.Ops = append(first.Ops, C06Op{Op: kind, Dir: d, ArgForm: form})
+		same := kind == "unused" && t.Bool(1, 3)
+		first.Ops = append(first.Ops, C06Op{Op: kind, Dir: d, ArgForm: form, SameApp: same})
 		if t.Bool(1, 3) {
-			first.Ops = append(first.Ops, C06Op{Op: "unused", Dir: d}) // immediately again, same process
+			first.Ops = append(first.Ops, C06Op{Op: "unused", Dir: d, ArgForm: form, SameApp: same}) // immediately again, same process (and, when drawn, the same app value)
 		}
 	}
 	if t.Bool(1, 2) {
@@ -184,7 +187,7 @@ func (C06) Run(ctx *sim.RunCtx, data json.RawMessage) (*sim.Outcome, error) {
 				proc.Ops = append(proc.Ops, sim.Op{Op: "identDir", Args: map[string]interface{}{"dir": dirs[op.Dir]}})
 				metas = append(metas, meta{"noise", op.Dir})
 			case "unused":
-				proc.Ops = append(proc.Ops, sim.Op{Op: "unusedImports", Args: map[string]interface{}{"dir": dirArg}})
+				proc.Ops = append(proc.Ops, sim.Op{Op: "unusedImports", Args: map[string]interface{}{"dir": dirArg, "same_app": op.SameApp}})
 				metas = append(metas, meta{"unused", op.Dir})
 			case "unused-cli":
 				// the CLI route: the move-class scan (with an empty move list) runs first in the same process
